@@ -4,6 +4,8 @@ From Model Require Import Engine.
 From Spec Require Import Sem FindSpec.
 From Proofs Require Import RefineBase RefineExec Refine Attempt FindCorrect SemSound Window UnrollSem ResolveOk ParseListsOk FrontTotal.
 From Model Require Parser.
+From Spec Require Lang.
+From Proofs Require LangAtoms LangSound.
 
 (* The central refinement: whenever the specification derives the ordered outcome list l for the
    resolved pattern r from state s, the VM running r's code (placed anywhere in any program that
@@ -86,6 +88,60 @@ Proof.
 Qed.
 Print Assumptions C01_well_formed_from_any_source.
 
+(* The specification against the TEXTBOOK meaning of a pattern.  [Lang.lang] is the language a pattern
+   denotes - sets of byte strings built by concatenation, union, bounded iteration of non-empty words and
+   grammar rules for subroutines, with no positions, priorities or backtracking in it.  For every pattern
+   without back-references, predicates, named loops and zero-width atoms ([Lang.pure]: literals, `not "c"`,
+   character classes, ranges, in / not in lists, groups, captures, alternations, loops greedy or fewest,
+   subroutines and recursion), at every state of every text:
+       some outcome ends at p'   <->   p <= p' <= |text|  and  text[p:p'] is in the language.
+   Left to right the backtracking semantics is sound, right to left it is complete: the priority order
+   loses no way of splitting the text.  With C01_attempt (the VM reports the first outcome) and
+   C01_find_all this ties what `find` reports to the textbook semantics. *)
+Theorem C01_outcomes_are_the_language :
+  forall text start defs, (forall t b p, defs t = Some (b, p) -> p = PNil /\ Lang.pure b) ->
+  forall r s l, outs text start defs r s l -> Lang.pure r -> fst s <= length text ->
+  forall p', (exists e, In (p', e) l) <-> fst s <= p' /\ p' <= length text /\ Lang.lang defs r (sub text (fst s) p').
+Proof. exact LangSound.outs_lang_lemma. Qed.
+Print Assumptions C01_outcomes_are_the_language.
+
+(* in particular an attempt fails exactly when no prefix of the rest of the text is a word of the pattern *)
+Theorem C01_no_outcome_iff_no_word :
+  forall text start defs, (forall t b p, defs t = Some (b, p) -> p = PNil /\ Lang.pure b) ->
+  forall r s l, outs text start defs r s l -> Lang.pure r -> fst s <= length text ->
+  (l = [] <-> forall p', fst s <= p' -> p' <= length text -> ~ Lang.lang defs r (sub text (fst s) p')).
+Proof.
+  intros text start defs Hd r s l Ho Hp Hs. pose proof (LangSound.outs_lang_lemma text start defs Hd r s l Ho Hp Hs) as H. split.
+  - intros -> p' H1 H2 HL. destruct (proj2 (H p') (conj H1 (conj H2 HL))) as (e & []).
+  - intros Hno. destruct l as [|[p' e] l']; [reflexivity|]. exfalso.
+    destruct (proj1 (H p') (ex_intro _ e (or_introl eq_refl))) as (H1 & H2 & HL). exact (Hno p' H1 H2 HL).
+Qed.
+Print Assumptions C01_no_outcome_iff_no_word.
+
+(* the atoms the theorem covers, and the words each reads *)
+Theorem C01_local_atoms :
+  (forall cl v, Lang.local_atom (IMatchLit false cl v)) /\
+  (forall cl c, Lang.local_atom (IMatchLit true cl [c])) /\
+  (forall nt lo hi, Lang.local_atom (IMatchRange nt [lo] [hi])) /\
+  (forall nt k, In k [CAny; CWhitespace; CDigit; CUpper; CLower; CLetter] -> Lang.local_atom (IMatchClass nt k)) /\
+  (forall v w, Lang.atom_word (IMatchLit false false v) w <-> v <> [] /\ w = v) /\
+  (forall c w, Lang.atom_word (IMatchLit true false [c]) w <-> exists b, w = [b] /\ b <> c) /\
+  (forall lo hi w, Lang.atom_word (IMatchRange false [lo] [hi]) w <-> exists b, w = [b] /\ (lo <= b /\ b <= hi)%N).
+Proof.
+  split; [exact LangAtoms.lit_local|]. split; [intros cl c; exact (LangAtoms.one_byte_local _ _ (LangAtoms.notlit1_one cl c))|].
+  split; [intros nt lo hi; exact (LangAtoms.one_byte_local _ _ (LangAtoms.range1_one nt lo hi))|].
+  split.
+  { intros nt k Hk. cbn [In] in Hk. destruct Hk as [<-|[<-|[<-|[<-|[<-|[<-|[]]]]]]].
+    - destruct nt; [exact (LangAtoms.one_byte_local _ _ LangAtoms.any_not_one)|exact (LangAtoms.one_byte_local _ _ LangAtoms.any_one)].
+    - exact (LangAtoms.one_byte_local _ _ (LangAtoms.whitespace_one nt)).
+    - exact (LangAtoms.one_byte_local _ _ (LangAtoms.digit_one nt)).
+    - exact (LangAtoms.one_byte_local _ _ (LangAtoms.upper_one nt)).
+    - exact (LangAtoms.one_byte_local _ _ (LangAtoms.lower_one nt)).
+    - exact (LangAtoms.one_byte_local _ _ (LangAtoms.letter_one nt)). }
+  split; [exact LangAtoms.lit_word_exact|]. split; [exact LangAtoms.dot_word|exact LangAtoms.range_word].
+Qed.
+Print Assumptions C01_local_atoms.
+
 (* non-vacuity: a loop inside an alternation inside a recursive subroutine, on "aabbd":
    {'a' maybe s 'b'} = s 'd'  has the single outcome 5, and the hypotheses of C01_attempt hold *)
 Definition ex_rx : rx :=
@@ -102,4 +158,28 @@ Proof.
   split.
   - cbn. repeat split; auto.
   - apply (outs_f_sound ex_text 0 (defs_of ex_rx) 40). vm_compute. reflexivity.
+Qed.
+
+(* the witness pattern is in the scope of the language theorem, and its subroutine table satisfies the hypothesis *)
+Example C01_language_witness :
+  Lang.pure ex_rx /\ (forall t b p, defs_of ex_rx t = Some (b, p) -> p = PNil /\ Lang.pure b) /\
+  Lang.lang (defs_of ex_rx) ex_rx ex_text.
+Proof.
+  assert (Hb : Lang.pure (XSeq (XAtom (IMatchLit false false [97]%N))
+          (XSeq (XLoop 0 0 1 false [] (XCall [115]%N 0))
+          (XSeq (XAtom (IMatchLit false false [98]%N)) XEps)))).
+  { cbn [Lang.pure]. split; [apply LangAtoms.lit_local|]. split; [split; [reflexivity|exact I]|]. split; [apply LangAtoms.lit_local|exact I]. }
+  split; [cbn [Lang.pure ex_rx]; split; [split; [reflexivity|exact Hb]|split; [apply LangAtoms.lit_local|exact I]]|]. split.
+  - intros [|t] b p H; [|discriminate]. inversion H; subst. split; [reflexivity|exact Hb].
+  - (* a (a () b) b d *)
+    assert (Hw : forall c, Lang.lang (defs_of ex_rx) (XAtom (IMatchLit false false [c])) [c]).
+    { intros c. constructor. apply LangAtoms.lit_word_exact. split; [discriminate|reflexivity]. }
+    set (body := XSeq (XAtom (IMatchLit false false [97]%N)) (XSeq (XLoop 0 0 1 false [] (XCall [115]%N 0)) (XSeq (XAtom (IMatchLit false false [98]%N)) XEps))).
+    assert (Hinner : Lang.lang (defs_of ex_rx) body [97; 98]%N).
+    { change [97; 98]%N with ([97]%N ++ (concat [] ++ ([98]%N ++ []))). constructor; [apply Hw|]. constructor; [|constructor; [apply Hw|constructor]].
+      constructor; [cbn; lia|reflexivity|constructor]. }
+    assert (Houter : Lang.lang (defs_of ex_rx) body [97; 97; 98; 98]%N).
+    { change [97; 97; 98; 98]%N with ([97]%N ++ (concat [[97; 98]%N] ++ ([98]%N ++ []))). constructor; [apply Hw|]. constructor; [|constructor; [apply Hw|constructor]].
+      constructor; [cbn; lia|reflexivity|]. constructor; [|constructor]. split; [|discriminate]. econstructor; [reflexivity|exact Hinner]. }
+    change ex_text with ([97; 97; 98; 98]%N ++ ([100]%N ++ [])). constructor; [constructor; exact Houter|]. constructor; [apply Hw|constructor].
 Qed.
